@@ -15,6 +15,8 @@ for d in sorted(glob.glob(os.path.join(V, 'seeded', '*', 'meta.json'))):
     if rc == 1:
         res = 'VIOLATION' + ('' if not any('no-failing-input-found' in l for l in m.get('our_check_output', [])) else ' (no-failing-input-found)')
         why = out[0][len('obligation failed: '):][:150].replace('|', '\\|') if out else ''
+        if m.get('first_contact'):
+            res += ' — missed on first contact'
     elif rc == 0:
         res = 'missed'
         why = m.get('miss_reason', 'function not under contract')
